@@ -37,6 +37,9 @@ def build(sidecar_names=None, repo=None):
             fe.find_function(c.opts.get('impl', q))
         except KeyError:
             pass
+    for mname in sc.load_modules:
+        fe.module(mname)
+    fe.finalize()
     return Engine(sc, fe)
 
 
@@ -44,7 +47,20 @@ def generate(E, qual):
     """returns (FuncVerifier, obligations) for the function `qual`"""
     c = E.find_contract(qual)
     if c is None:
-        raise EngineError('no contract for ' + qual)
+        # an override verified against the family contract of an ancestor (behavioural subtyping)
+        m, cls, fn, enclosing = E.fe.find_function(qual)
+        if cls is None:
+            raise EngineError('no contract for ' + qual)
+        import copy
+        from .calls import find_method_contract
+        probe = FuncVerifier(E, qual, fn, None, module=m, cls=cls)
+        fam = find_method_contract(probe, cls.key, fn.name)
+        if fam is None or fam.kind != 'family':
+            raise EngineError('no contract (own or family) for ' + qual)
+        c = copy.copy(fam)
+        c.qual = qual
+        c.params = [(n, (cls.key if n == 'self' else t)) for n, t in fam.params]
+        c.opts = dict(fam.opts, family_of=fam.qual)
     m, cls, fn, enclosing = E.fe.find_function(c.opts.get('impl', qual))
     fv = FuncVerifier(E, qual, fn, c, module=m, cls=cls, enclosing=enclosing)
     fv.run()
@@ -72,7 +88,7 @@ def verify(quals, sidecar_names=None, repo=None, timeout_ms=10000, keep_smt=Fals
         t0 = time.time()
         try:
             fv = generate(E, q)
-            m, cls, fn, enc = E.fe.find_function(E.find_contract(q).opts.get('impl', q))
+            m, cls, fn, enc = E.fe.find_function(fv.c.opts.get('impl', q))
             fr.source_hash = E.fe.source_hash(fn, m)
             fr.used_contracts = sorted(fv.used_contracts)
             fr.abstracted = list(fv.abstracted)
